@@ -15,6 +15,8 @@
 //                                                                                   thread's last connect returned)
 //       peer:<k>          raw loopback socket k connects (TCP) / sends one datagram (UDP) to the first listener
 //       psend:<k>:<n>     pclose:<k>
+//       csync:<ms>[:dead] connectSync (to the first listener / to a dead port)    mode:<nth>:<sync|async|disabled>
+//       recv:<nth>:<len>:<ms>   receiveSync
 //       waitn:<n>         spin (schedule points) until n sessions have been announced
 //       waitflag:<f> setflag:<f>
 //       stop   start   (repeated cycles)   drop (release this thread's shared_ptr)
@@ -25,6 +27,7 @@
 //   Accept{s,as} Connect{s,as} Data{s,n,as} Close{s,as}     as = some stop() of the current run cycle had already returned
 //                                                            to a non-callback caller when this callback STARTED
 //   ConnCall{t} ConnRet{t,ok,s,af}  SendCall{t,s} SendRet{t,s,ok,af}  CloseCall{t,s} CloseRet{t,s,ok,af}
+//   SyncConnCall{t,to} SyncConnRet{t,ok,s,af}  ModeCall{t,s} ModeRet{t,s,ok}  RecvCall{t,s,to} RecvRet{t,s,ok,n,af}
 //   ListenCall{t} ListenRet{t,ok,af}                          af = the call BEGAN after such a stop() had returned
 //   LifeCall{t,op} LifeRet{t,op,ok}   End{outcome,stuck,steps,bw}    bw = write() calls that hit a closed descriptor
 #include "iora/network/transport.hpp"
@@ -297,6 +300,36 @@ static void appOps(World *w, const ThreadProg &tp)
       auto r = t->connect("127.0.0.1", (uint16_t)w->port.load(), TlsMode::None);
       if (r.isOk()) mine = r.value();
       w->tr.add(vf::Ev("ConnRet").str("t", tp.name).b("ok", r.isOk()).i("s", r.isOk() ? (long long)r.value() : 0).b("af", af));
+    }
+    else if (op == "csync")
+    {
+      // connectSync to the first listener, or (csync:<ms>:dead) to a loopback port nobody listens on
+      long to = o.f.size() > 1 ? atol(o.f[1].c_str()) : 100000;
+      bool dead = o.f.size() > 2 && o.f[2] == "dead";
+      w->tr.add(vf::Ev("SyncConnCall").str("t", tp.name).i("to", to));
+      auto r = t->connectSync("127.0.0.1", dead ? (uint16_t)1 : (uint16_t)w->port.load(), TlsMode::None, std::chrono::milliseconds(to));
+      if (r.isOk()) mine = r.value();
+      w->tr.add(vf::Ev("SyncConnRet").str("t", tp.name).b("ok", r.isOk()).i("s", r.isOk() ? (long long)r.value() : 0).b("af", af));
+    }
+    else if (op == "mode")
+    {
+      SessionId s = sidOf(o.f[1]);
+      if (!s) continue;
+      ReadMode m = o.f[2] == "sync" ? ReadMode::Sync : o.f[2] == "async" ? ReadMode::Async : ReadMode::Disabled;
+      w->tr.add(vf::Ev("ModeCall").str("t", tp.name).i("s", (long long)s));
+      bool ok = t->setReadMode(s, m);
+      w->tr.add(vf::Ev("ModeRet").str("t", tp.name).i("s", (long long)s).b("ok", ok));
+    }
+    else if (op == "recv")
+    {
+      SessionId s = sidOf(o.f[1]);
+      if (!s) continue;
+      std::size_t len = (std::size_t)atoi(o.f[2].c_str());
+      long to = o.f.size() > 3 ? atol(o.f[3].c_str()) : 100000;
+      std::vector<char> buf(len ? len : 1);
+      w->tr.add(vf::Ev("RecvCall").str("t", tp.name).i("s", (long long)s).i("to", to));
+      auto r = t->receiveSync(s, buf.data(), len, std::chrono::milliseconds(to));
+      w->tr.add(vf::Ev("RecvRet").str("t", tp.name).i("s", (long long)s).b("ok", r.isOk()).i("n", r.isOk() ? (long long)len : 0).b("af", af));
     }
     else if (op == "send")
     {
